@@ -146,6 +146,9 @@ def w_vacancy(arg):
                         continue
                     worst = max(np.abs(a - b).max() for a, b in zip(La, Lb)) / sc
                     acc.check(worst <= 1e-7, 'large-rate-algorithm-agrees-with-standard-algorithm', '%s scale %g: %.2e' % (tag, s_, worst), sig=(k, s_, 'agree'), signature='agree|%s|%s' % (cid, 'below-1e-4' if worst < 1e-4 else 'above-1e-4'))
+                # (that the default's choice of algorithm depends on rate ratios only is the degree-typing obligation
+                #  `branch-condition-invariant` of VacancyMediated.Lij, level P: a numeric comparison of slowed-down data is dominated by
+                #  roundoff amplified by the exchange ratio -- 1e-6 .. 1e-2 measured on the unchanged tree -- and was withdrawn)
                 if s_ == 1e10: ref10 = Ld
                 if s_ >= 1e12 and ref10 is not None:
                     for nm, T, R in zip(NAMES, Ld, ref10):
